@@ -1,3 +1,251 @@
 // harnesses for crate::stream (child module: sees private items)
 #![allow(dead_code, unused_imports)]
 use super::*;
+use crate::verif_k::bits::{BitBuf, ByteSink, ByteSrc};
+use crate::verif_k::spec;
+use crate::verif_k::spechdr::{self, SpecHeader, V};
+use crate::verif_k::tape::Tape;
+use crate::verif_k::{vk_assert, vk_undecided};
+
+fn hdr_matches(h: &FrameHeader, s: &SpecHeader, si_rate: u32, si_bps: u32) -> bool {
+    let ch_code: u32 = match h.channel_assignment {
+        ChannelAssignment::Independent(c) => (c as u8 as u32) - 1,
+        ChannelAssignment::LeftSide => 8,
+        ChannelAssignment::SideRight => 9,
+        ChannelAssignment::MidSide => 10,
+    };
+    h.blocking_strategy == s.blocking
+        && u32::from(u16::from(h.block_size)) == s.block_size
+        && u32::from(h.sample_rate) == s.rate.unwrap_or(si_rate)
+        && ch_code == s.ch_code
+        && u32::from(h.channel_assignment.count()) == spechdr::channels_of_code(s.ch_code)
+        && u32::from(h.bits_per_sample) == s.bps.unwrap_or(si_bps)
+        && h.frame_number.0 == s.number
+}
+
+// contract (RFC 9639 §9.1, all 128-bit strings): FrameHeader::parse (subset form, no STREAMINFO)
+//   Ok(h)  => the RFC reading of the bits is not MustReject, uses no STREAMINFO reference, and h carries exactly the RFC values
+//   RFC Valid and self-describing => Ok;  exactly the header's bits are consumed
+#[kani::proof]
+#[kani::unwind(8)]
+pub(crate) fn k_hdr_parse_subset_vs_rfc() {
+    let mut b: BitBuf<2> = BitBuf::any_full();
+    let (v, s) = spechdr::spec_parse(&b);
+    let r = <FrameHeader as FromBitStream>::from_reader(&mut b);
+    match r {
+        Ok(h) => {
+            vk_assert!(v != V::MustReject, "frame header with a reserved / illegal code accepted");
+            vk_assert!(s.rate.is_some() && s.bps.is_some(), "subset header parse accepted a STREAMINFO reference");
+            vk_assert!(hdr_matches(&h, &s, 0, 0), "parsed header fields differ from the RFC 9639 9.1 reading");
+            vk_assert!(b.pos == s.bits, "header parse consumed a different number of bits than the header occupies");
+        }
+        Err(_) => {
+            vk_assert!(!(v == V::Valid && s.rate.is_some() && s.bps.is_some()), "valid self-describing frame header rejected");
+        }
+    }
+    kani::cover!(v == V::Valid && s.number_bytes == 7 && s.bs_code == 7 && s.rate_code == 14, "longest header reachable");
+}
+
+// contract: FrameHeader::from_reader with STREAMINFO: as above, STREAMINFO references resolved, and
+//   Ok(h) => block size <= STREAMINFO maximum, rate, channel count and bits-per-sample equal STREAMINFO's
+#[kani::proof]
+#[kani::unwind(8)]
+pub(crate) fn k_hdr_parse_streaminfo_vs_rfc() {
+    let mut b: BitBuf<2> = BitBuf::any_full();
+    let (v, s) = spechdr::spec_parse(&b);
+    let si_rate: u32 = kani::any();
+    kani::assume(si_rate < (1 << 20));
+    let si_bps: u32 = kani::any();
+    kani::assume(si_bps >= 1 && si_bps <= 32);
+    let si_ch: u8 = kani::any();
+    kani::assume(si_ch >= 1 && si_ch <= 8);
+    let si_max: u16 = kani::any();
+    let si = crate::metadata::Streaminfo {
+        minimum_block_size: 0,
+        maximum_block_size: si_max,
+        minimum_frame_size: None,
+        maximum_frame_size: None,
+        sample_rate: si_rate,
+        channels: NonZero::new(si_ch).unwrap(),
+        bits_per_sample: SignedBitCount::<32>::try_from(si_bps).unwrap(),
+        total_samples: None,
+        md5: None,
+    };
+    let r = <FrameHeader as FromBitStreamWith>::from_reader(&mut b, &si);
+    let consistent = s.block_size <= si_max as u32
+        && s.rate.unwrap_or(si_rate) == si_rate
+        && spechdr::channels_of_code(s.ch_code) == si_ch as u32
+        && s.bps.unwrap_or(si_bps) == si_bps;
+    match r {
+        Ok(h) => {
+            vk_assert!(v != V::MustReject, "frame header with a reserved / illegal code accepted");
+            vk_assert!(hdr_matches(&h, &s, si_rate, si_bps), "parsed header fields differ from the RFC 9639 9.1 reading");
+            vk_assert!(consistent, "frame header inconsistent with STREAMINFO accepted");
+        }
+        Err(_) => {
+            vk_assert!(!(v == V::Valid && consistent), "valid frame header consistent with STREAMINFO rejected");
+        }
+    }
+}
+
+fn any_channel_assignment() -> ChannelAssignment {
+    let c: u8 = kani::any();
+    kani::assume(c <= 10);
+    match c {
+        0 => ChannelAssignment::Independent(Independent::Mono),
+        1 => ChannelAssignment::Independent(Independent::Stereo),
+        2 => ChannelAssignment::Independent(Independent::Channels3),
+        3 => ChannelAssignment::Independent(Independent::Channels4),
+        4 => ChannelAssignment::Independent(Independent::Channels5),
+        5 => ChannelAssignment::Independent(Independent::Channels6),
+        6 => ChannelAssignment::Independent(Independent::Channels7),
+        7 => ChannelAssignment::Independent(Independent::Channels8),
+        8 => ChannelAssignment::LeftSide,
+        9 => ChannelAssignment::SideRight,
+        _ => ChannelAssignment::MidSide,
+    }
+}
+
+/// every header the encoder can construct: block size 1..=65535, any rate < 2^20, bps 1..=32, number < 2^36
+fn any_encoder_header() -> (FrameHeader, u32, u32, u32) {
+    let n: u16 = kani::any();
+    kani::assume(n >= 1);
+    let rate: u32 = kani::any();
+    kani::assume(rate < (1 << 20));
+    let bps: u32 = kani::any();
+    kani::assume(bps >= 1 && bps <= 32);
+    let num: u64 = kani::any();
+    kani::assume(num < (1 << 36));
+    let h = FrameHeader {
+        blocking_strategy: kani::any(),
+        block_size: BlockSize::try_from(n).unwrap(),
+        sample_rate: SampleRate::try_from(rate).unwrap(),
+        channel_assignment: any_channel_assignment(),
+        bits_per_sample: BitsPerSample::from(SignedBitCount::<32>::try_from(bps).unwrap()),
+        frame_number: FrameNumber(num),
+    };
+    (h, n as u32, rate, bps)
+}
+
+fn min_number_bytes(n: u64) -> u32 {
+    if n < 0x80 { 1 } else if n < 0x800 { 2 } else if n < 0x1_0000 { 3 } else if n < 0x20_0000 { 4 } else if n < 0x400_0000 { 5 } else if n < 0x8000_0000 { 6 } else { 7 }
+}
+
+// contract (RFC 9639 §9.1, every header the encoder can construct): FrameHeader::build
+//   Ok(()), the bits written read back under the RFC as a Valid header (zero reserved bit, shortest
+//   number coding) with exactly these values; STREAMINFO references only where the value has no code
+#[kani::proof]
+#[kani::unwind(8)]
+pub(crate) fn k_hdr_build_vs_rfc() {
+    let (h, n, rate, bps) = any_encoder_header();
+    let mut b: BitBuf<2> = BitBuf::empty();
+    let r = h.build(&mut b);
+    vk_assert!(r.is_ok(), "building a constructible frame header failed");
+    vk_assert!(b.len % 8 == 0 && b.len <= 120, "header is a whole number of bytes, at most 15 before the CRC");
+    let written = b.len;
+    b.len = 128; // the CRC byte and beyond are irrelevant to the field reading
+    let (v, s) = spechdr::spec_parse(&b);
+    vk_assert!(v == V::Valid, "built header is not a valid RFC 9639 9.1 header (reserved code / reserved bit / bad number coding)");
+    vk_assert!(s.bits == written + 8, "built header has a different length than its RFC reading");
+    vk_assert!(hdr_matches(&h, &s, rate, bps), "built header reads back under the RFC with different values");
+    vk_assert!(s.block_size == n, "block size coded wrongly");
+    vk_assert!(s.number_bytes == min_number_bytes(h.frame_number.0), "frame number not in its shortest coding");
+    // codes are self-describing whenever the format has a code for the value
+    if spechdr::bps_of_code(1) == bps || bps == 12 || bps == 16 || bps == 20 || bps == 24 || bps == 32 {
+        vk_assert!(s.bps == Some(bps), "bits-per-sample with a header code written as a STREAMINFO reference");
+    }
+    if s.rate.is_none() {
+        let representable = (rate % 1000 == 0 && rate / 1000 <= 255) || (rate <= 65535) || (rate % 10 == 0 && rate / 10 <= 65535);
+        vk_assert!(!representable || rate == 255000 || rate == 65535 || rate == 655350, "sample rate with a header coding written as a STREAMINFO reference");
+    }
+    kani::cover!(s.number_bytes == 7, "7-byte number reachable");
+}
+
+// ------------------------------------------------------------------ CRC-8 gate, modular
+//
+// FrameHeader::read / read_subset / write / write_subset wrap the field codec in a CRC-8 reader or
+// writer.  The real BitReader/BitWriter stack over a whole symbolic header does not finish in CBMC
+// (measured: > 10 min), so the field codec is replaced by its contract (parse: consumes the
+// header's bytes and yields a header or an error; build: emits the header's bytes) and the
+// obligation is the gate itself:
+//   read*:  Ok(h) => parse Ok and CRC-8 (RFC polynomial) over exactly the bytes parse consumed is 0;
+//           parse Ok and CRC 0 => Ok; parse Err => Err
+//   write*: bytes delivered == bytes build emitted ++ CRC-8 of those bytes
+use std::sync::atomic::{AtomicUsize, Ordering::Relaxed};
+static G_PARSE_FAIL: AtomicUsize = AtomicUsize::new(0);
+static G_BUILD_WORD: AtomicUsize = AtomicUsize::new(0);
+
+fn fixed_header() -> FrameHeader {
+    FrameHeader {
+        blocking_strategy: false,
+        block_size: BlockSize::Samples4096,
+        sample_rate: SampleRate::Hz44100,
+        channel_assignment: ChannelAssignment::Independent(Independent::Mono),
+        bits_per_sample: BitsPerSample::Bps16,
+        frame_number: FrameNumber(0),
+    }
+}
+
+fn stub_parse<R: BitRead + ?Sized>(r: &mut R, _rate: Option<u32>, _bps: Option<SignedBitCount<32>>) -> Result<FrameHeader, Error> {
+    r.skip(24)?; // a 2-byte model header followed by its CRC-8 byte
+    if G_PARSE_FAIL.load(Relaxed) != 0 { Err(Error::InvalidSyncCode) } else { Ok(fixed_header()) }
+}
+
+fn stub_build<W: BitWrite + ?Sized>(_h: &FrameHeader, w: &mut W) -> Result<(), Error> {
+    w.write::<16, u16>(G_BUILD_WORD.load(Relaxed) as u16)?;
+    Ok(())
+}
+
+#[kani::proof]
+#[kani::unwind(5)]
+#[kani::stub(FrameHeader::parse, stub_parse)]
+pub(crate) fn k_hdr_read_subset_crc8_gate() {
+    let bytes: [u8; 3] = kani::any();
+    let fail: bool = kani::any();
+    G_PARSE_FAIL.store(fail as usize, Relaxed);
+    let mut src = ByteSrc::<3>::full(bytes);
+    let r = FrameHeader::read_subset(&mut src);
+    let crc = spec::crc8_step(spec::crc8_step(spec::crc8_step(0, bytes[0]), bytes[1]), bytes[2]);
+    vk_assert!(r.is_ok() == (!fail && crc == 0), "read_subset releases a header iff the fields parse and CRC-8 over the header bytes is zero");
+    vk_assert!(src.pos == 3, "CRC-8 covers exactly the bytes of the header");
+}
+
+#[kani::proof]
+#[kani::unwind(5)]
+#[kani::stub(FrameHeader::parse, stub_parse)]
+pub(crate) fn k_hdr_read_crc8_gate() {
+    let bytes: [u8; 3] = kani::any();
+    let fail: bool = kani::any();
+    G_PARSE_FAIL.store(fail as usize, Relaxed);
+    let mut src = ByteSrc::<3>::full(bytes);
+    let si = crate::metadata::Streaminfo {
+        minimum_block_size: 16, maximum_block_size: 4096, minimum_frame_size: None, maximum_frame_size: None,
+        sample_rate: 44100, channels: NonZero::new(1).unwrap(), bits_per_sample: SignedBitCount::<32>::new::<16>(),
+        total_samples: None, md5: None,
+    };
+    let r = FrameHeader::read(&mut src, &si);
+    let crc = spec::crc8_step(spec::crc8_step(spec::crc8_step(0, bytes[0]), bytes[1]), bytes[2]);
+    vk_assert!(r.is_ok() == (!fail && crc == 0), "read releases a header iff the fields parse and CRC-8 over the header bytes is zero");
+    vk_assert!(src.pos == 3, "CRC-8 covers exactly the bytes of the header");
+}
+
+#[kani::proof]
+#[kani::unwind(5)]
+#[kani::stub(FrameHeader::build, stub_build)]
+pub(crate) fn k_hdr_write_crc8_gate() {
+    let word: u16 = kani::any();
+    G_BUILD_WORD.store(word as usize, Relaxed);
+    let mut sink = ByteSink::<4>::new();
+    let subset: bool = kani::any();
+    let si = crate::metadata::Streaminfo {
+        minimum_block_size: 16, maximum_block_size: 4096, minimum_frame_size: None, maximum_frame_size: None,
+        sample_rate: 44100, channels: NonZero::new(1).unwrap(), bits_per_sample: SignedBitCount::<32>::new::<16>(),
+        total_samples: None, md5: None,
+    };
+    let r = if subset { fixed_header().write_subset(&mut sink) } else { fixed_header().write(&mut sink, &si) };
+    vk_assert!(r.is_ok(), "writing into a large enough buffer succeeds");
+    let b0 = (word >> 8) as u8;
+    let b1 = word as u8;
+    vk_assert!(sink.len == 3 && sink.data[0] == b0 && sink.data[1] == b1, "header bytes delivered unchanged");
+    vk_assert!(sink.data[2] == spec::crc8_step(spec::crc8_step(0, b0), b1), "last byte is the CRC-8 (RFC polynomial) of the header bytes");
+}
